@@ -115,7 +115,7 @@ def decision_case(draw):
         case["N"] = draw(st.integers(0, 50))
         case["P"] = draw(st.one_of(st.just(0.0), fl(-0.5, 0.5), log10_floats(-6, 0)))
     if kind.startswith("gc"):
-        case["N"] = draw(st.integers(1 if kind == "gc_delete" else 0, 60))
+        case["N"] = draw(st.one_of(st.integers(1 if kind == "gc_delete" else 0, 60), st.sampled_from([169, 170, 171, 172, 300, 5000])))
         case["V"] = draw(log10_floats(0, 5))
         case["mu"] = draw(st.one_of(fl(-5, 5), st.sampled_from([0.0, -100.0, 100.0])))
         case["masses"] = draw(st.lists(fl(1, 250), min_size=1, max_size=3))
@@ -378,6 +378,15 @@ def run_tension(case):
             scale = 0.3 * kT / (V0 * eta * norm)
             D = D * scale
             S = P * np.eye(3) + D
+            if case.get("N", 0) % 2 == 0:
+                # the same criteria object has just judged a trial from ANOTHER reference cell of the same volume
+                # (what an accepted volume-preserving shear leaves behind): each trial is judged on its own cells
+                shear = np.eye(3)
+                shear[0, 1], shear[1, 2] = 0.23, -0.11
+                ctx_w, stub_w, _, _ = _tension_ctx(h0 @ shear, h, n, T, P, S, 3.0)
+                stub_w.u = 0.5
+                crit.evaluate(ctx_w)
+                labels.append("criteria-used-before-on-an-equal-volume-cell")
             ctx, stub, kT, V0 = _tension_ctx(h0, h, n, T, P, S, 3.0)
             lnA = measure_logA(crit, ctx, stub)
             ctx.external_stress = P * np.eye(3)
@@ -729,9 +738,9 @@ PARTS = {
 def plan(tier):
     if tier == "quick":
         return [
-            {"part": "decision", "shards": 8, "budget": {"n_examples": 3000}},
-            {"part": "tension", "shards": 4, "budget": {"n_examples": 150}},
-            {"part": "driver", "shards": 4, "budget": {"n_examples": 500}},
+            {"part": "decision", "shards": 6, "budget": {"n_examples": 4000}},
+            {"part": "tension", "shards": 2, "budget": {"n_examples": 300}},
+            {"part": "driver", "shards": 8, "budget": {"n_examples": 250}},
         ]
     return [
         {"part": "decision", "shards": 16, "budget": {"n_examples": 50000}},
